@@ -199,6 +199,9 @@ fn containers(slow: bool) -> Vec<TypeOps> {
 		std::borrow::Cow<'static, [DupTracked]>,
 		DTZ2, Box<DTZ2>, [DTZ2; 2], DTZ3, Box<DTZ3>, [DTZ3; 3], Rc<DTZ3>, Vec<DTZ2>,
 		Vec<BigTracked>, VecDeque<BigTracked>, BinaryHeapBig, Vec<Vec<BigTracked>>,
+		// pointers to plain primitives: nothing for the ledger to see, but every decoded pointer
+		// must own a real allocation - dropping the value is watched by Miri / ASan / the allocator
+		Vec<Box<u64>>, [Box<u8>; 4], [Rc<u16>; 3], VecDeque<Arc<u32>>, Vec<Rc<i128>>, Box<[Box<u16>; 2]>, Vec<Arc<f64>>, [Arc<i8>; 5],
 	);
 	if !slow {
 		k!([Tracked; 40], Box<[Tracked; 40]>, [Box<Tracked>; 40], Box<[Vec<Tracked>; 8]>, Vec<[Tracked; 8]>);
